@@ -43,6 +43,9 @@ FILMS = ["box64", "box33", "box81", "ellipse", "circle", "tee", "notched", "resa
 HOLES = ["none", "circle", "two", "box"]
 
 
+HISTORIES = ("remesh_finer", "remesh_coarser", "translated_inplace", "copy_translated", "translation_context", "terminal_resized", "terminals_replaced")
+
+
 def cases(tier, seed):
     out = []
     if tier == "quick":
@@ -53,7 +56,7 @@ def cases(tier, seed):
                 out.append(dict(film=f, holes="circle", terminals=2, mel=mel, min_points=mp, smooth=sm, xi=xi))
         # histories: the checked mesh is not the first one made for the device object
         for f in ("box33", "tee", "notched"):
-            for hist in ("remesh_finer", "remesh_coarser", "translated_inplace", "copy_translated", "translation_context", "terminal_resized", "terminals_replaced"):
+            for hist in HISTORIES:
                 out.append(dict(film=f, holes="circle", terminals=2, mel=0.8, min_points=None, smooth=0, xi=1.0, history=hist))
     else:
         # terminals do not influence the mesh: the settings sweep is run with terminals, the no-terminal devices once
@@ -63,6 +66,8 @@ def cases(tier, seed):
             out.append(dict(film=f, holes=h, terminals=2, mel=0.6, min_points=300, smooth=2, xi=2.0))
             for mel, sm, xi in itertools.product((1.0, 0.6, 0.4), (0, 2, 20), (0.5, 1.0, 2.0)):
                 out.append(dict(film=f, holes=h, terminals=2, mel=mel, min_points=None, smooth=sm, xi=xi))
+        for f, h, xi, hist in itertools.product(FILMS, ("circle", "two"), (1.0, 0.5), HISTORIES):
+            out.append(dict(film=f, holes=h, terminals=2, mel=0.8, min_points=None, smooth=0, xi=xi, history=hist))
     return out
 
 
